@@ -296,7 +296,7 @@ def gen_khist(draw, tier="quick"):
     case["cond_val"] = [0.3 * i if isinstance(v, str) or v != v else v for i, v in enumerate(case["cond_val"])]
     n = len(case["cond_val"])
     ops = []
-    kinds = ["anis", "angles", "len_scale", "var", "new_values", "new_positions", "refresh_only", "call", "call"]
+    kinds = ["anis", "angles", "len_scale", "var", "new_values", "new_positions", "refresh_only", "call", "call", "nudge_targets"]
     if cfg["variant"] == "simple":
         kinds += ["mean", "mean"]
     for _ in range(draw(st.integers(1, 6))):
@@ -304,6 +304,9 @@ def gen_khist(draw, tier="quick"):
         op = {"op": k}
         if k == "call":
             op["return_var"] = draw(st.booleans())
+        if k == "nudge_targets":
+            # the next request is for slightly different targets (relative move inside numpy.allclose's default window)
+            op["rel"] = draw(st.sampled_from([3e-6, 8e-6, -5e-6]))
         if k == "mean":
             # a new constant mean; the conditions are re-read on every call, with or without the refresh
             op["v"] = draw(st.floats(-2.0, 3.0))
@@ -320,6 +323,10 @@ def gen_khist(draw, tier="quick"):
             op["shift"] = draw(st.lists(st.floats(-0.4, 0.4), min_size=fdim, max_size=fdim))
         ops.append(op)
     last = {"op": "call", "return_var": draw(st.booleans())}
+    if draw(st.integers(0, 3)) == 0:
+        # motif: a call, then the same kind of call for slightly moved targets
+        ops.append(dict(last))
+        ops.append({"op": "nudge_targets", "rel": draw(st.sampled_from([3e-6, 8e-6, -5e-6]))})
     if cfg["variant"] == "simple" and draw(st.integers(0, 2)) == 0:
         # motif: the same kind of call before and after a property change
         ops.append(dict(last))
@@ -394,6 +401,9 @@ def check_khist(case, rec):
                     changed += 1
                 elif o == "refresh_only":
                     k.set_condition()
+                elif o == "nudge_targets":
+                    pos = pos * (1.0 + op["rel"])
+                    rec.label("targets_nudged")
                 elif o == "mean":
                     k.mean = op["v"]
                     cfg["mean"], cfg["mean_val"] = "const", float(op["v"])
